@@ -65,6 +65,14 @@ def run(ctx):
             # a table that went through the wrapper before (saved from / passed on as another object's pvt_props) still carries that
             # object's derived column, scaled for ANOTHER initial pressure: derived columns are recomputed, never trusted
             tb["m-scaled"] = tb0["pseudopressure"] / tb0["pseudopressure"][max(1, len(p) // 3)]
+        sparse = k % 5 in (2, 3)
+        if sparse:
+            # unrelated columns with blanks (a sparse lab measurement, a comment column of a CSV export): the rows of the table are
+            # the rows of the columns the wrapper reads
+            extra = np.full(len(p), np.nan)
+            extra[1::3] = 1.0
+            tb["lab check (sparse)"] = extra
+            tb["all blank"] = np.full(len(p), np.nan)
         mode = (k // 3) % 4      # every (variant, p_i mode) pair occurs within 12 consecutive cases
         j = int(rng.integers(1, len(p) - 1))
         p_i = float(p[j]) if mode == 0 else float(rng.uniform(p[1], p[-1])) if mode in (1, 2) else float(rng.choice([p[0] - 1.0, p[-1] + 1.0, p[-1] * 2]))
@@ -74,9 +82,9 @@ def run(ctx):
             for v in arg.values():
                 v.setflags(write=False)
         snap = snapshot(arg)
-        inp = dict(table_kind=kind, rows=len(p), p_i=p_i, user_alpha=bool(user_alpha), full_columns_too=bool(both), simple=bool(simple), carries_stale_m_scaled_column=bool(stale),
+        inp = dict(table_kind=kind, rows=len(p), p_i=p_i, user_alpha=bool(user_alpha), full_columns_too=bool(both), simple=bool(simple), carries_stale_m_scaled_column=bool(stale), carries_unrelated_columns_with_blanks=bool(sparse),
                    container=["DataFrame", "dict", "dict of read-only arrays"][int(container)],
-                   table={c: [float(x) for x in v] for c, v in tb.items()})
+                   table={c: [None if x != x else float(x) for x in v] for c, v in tb.items()})
         cls = FlowPropertiesSimple if (simple and not user_alpha) else FlowProperties
         impl = {}
         try:
@@ -171,7 +179,7 @@ def run(ctx):
         if r[4] != impl_err or not (r[0] <= 1e-9 * scale and r[1] <= 1e-9 * max(1.0, float(np.max(np.abs(impl.get("ms", [1.0]))))) and r[3] <= 1e-9 * scale
                                     and r[2] <= 1e-9 * float(np.max(np.abs(impl.get("alpha_q", [1.0]))))):
             bad("FlowProperties disagrees with the model (for which the C09 theorems are proved)",
-                dict(p_i=p_i, simple=simple, table={c: [float(x) for x in v] for c, v in tb.items()}), dict(diffs=r, impl_error=impl.get("error")))
+                dict(p_i=p_i, simple=simple, table={c: [None if x != x else float(x) for x in v] for c, v in tb.items()}), dict(diffs=r, impl_error=impl.get("error")))
     ctx.cov.update(evaluations=ev, distinct_nontrivial=len(items), traces_validated_against_impl=len([r for r in res if r is not None]), exhaustive_column_subsets=128,
                    rule="tables from all families as DataFrame / dict / dict of read-only arrays; p_i on nodes, between nodes, outside; both constructor "
                         "branches and FlowPropertiesSimple; diffusivity queries incl. +-1e300, +-inf, nodes, midpoints; all 64 column subsets x 2 classes; "
